@@ -180,9 +180,13 @@ struct Ctx {
 }
 
 impl Ctx {
-    fn new() -> Result<Ctx, String> {
+    fn new(small: bool) -> Result<Ctx, String> {
         let mut opts = WorkerOpts::default();
         opts.request_deadline = T;
+        if small {
+            // at_capacity() = slab.len() >= 10 + 2 * max_connections: 12 entries
+            opts.max_connections = Some(1);
+        }
         let w = Worker::start(opts).map_err(|e| format!("start: {e:?}"))?;
         Ok(Ctx {
             w,
@@ -323,13 +327,6 @@ impl Ctx {
                     "QueryMaxConnectionsPerIp" => {
                         RequestType::QueryMaxConnectionsPerIp(QueryMaxConnectionsPerIp {})
                     }
-                    "SetMetricDetail" => RequestType::SetMetricDetail(SetMetricDetail {
-                        client_id: "verif".into(),
-                        detail: if ok { Some(0) } else { None },
-                        ttl_seconds: Some(5),
-                        clear: None,
-                        ..Default::default()
-                    }),
                     other => return Err(format!("plain kind {other}")),
                 }
             }
@@ -456,7 +453,12 @@ impl Ctx {
             }
             "deact" => {
                 let a = self.addr(if ws[1] == "u" { "u" } else { "t" }, n(2)?);
-                RequestType::DeactivateListener(DeactivateListener { address: a.into(), proxy: proxy_i32(ws[1]), to_scm: false })
+                let to_scm = ws.get(3) == Some(&"scm");
+                if to_scm {
+                    // the descriptor travels on the SCM socket nobody reads: it stays open in flight
+                    self.scm_used = true;
+                }
+                RequestType::DeactivateListener(DeactivateListener { address: a.into(), proxy: proxy_i32(ws[1]), to_scm })
             }
             "rml" => {
                 let a = self.addr(if ws[1] == "u" { "u" } else { "t" }, n(2)?);
@@ -484,33 +486,58 @@ impl Ctx {
                 }
             }
             "addcert" => {
-                let s = n(1)?;
-                let a = self.addr("s", s);
-                RequestType::AddCertificate(AddCertificate { address: a.into(), certificate: cert_and_key(s, b(2)?), expired_at: None })
+                let a = self.addr("s", n(1)?);
+                RequestType::AddCertificate(AddCertificate { address: a.into(), certificate: cert_and_key(n(2)?, b(3)?), expired_at: None })
             }
             "rmcert" => {
-                let s = n(1)?;
-                let a = self.addr("s", s);
+                let a = self.addr("s", n(1)?);
                 RequestType::RemoveCertificate(RemoveCertificate {
                     address: a.into(),
-                    fingerprint: if b(2)? { fingerprint_hex(s) } else { "zz-not-hex".into() },
+                    fingerprint: if b(3)? { fingerprint_hex(n(2)?) } else { "zz-not-hex".into() },
                 })
             }
             "replcert" => {
-                let s = n(1)?;
-                let a = self.addr("s", s);
+                let a = self.addr("s", n(1)?);
                 RequestType::ReplaceCertificate(ReplaceCertificate {
                     address: a.into(),
-                    new_certificate: cert_and_key(s + 1, b(3)?),
-                    old_fingerprint: if b(2)? { fingerprint_hex(s) } else { "zz-not-hex".into() },
+                    new_certificate: cert_and_key(n(4)?, b(5)?),
+                    old_fingerprint: if b(3)? { fingerprint_hex(n(2)?) } else { "zz-not-hex".into() },
                     new_expired_at: None,
                 })
             }
-            "qcerts" => RequestType::QueryCertificatesFromWorkers(QueryCertificatesFilters {
-                domain: None,
-                // a fingerprint no certificate of the universe has
-                fingerprint: if b(1)? { Some("00ff00ff".into()) } else { None },
+            "qcerts" => RequestType::QueryCertificatesFromWorkers(match n(1)? {
+                // answered from the worker's config_state
+                1 => QueryCertificatesFilters {
+                    domain: None,
+                    fingerprint: Some(if n(2)? < 2 { fingerprint_hex(n(2)?) } else { "00ff00ff".into() }),
+                },
+                // answered by the HTTPS proxy's resolvers
+                2 => QueryCertificatesFilters { domain: Some("localhost".into()), fingerprint: None },
+                _ => QueryCertificatesFilters { domain: None, fingerprint: None },
             }),
+            "setdetail" => {
+                let fl = ws.get(2).copied().unwrap_or("-");
+                let client = n(1)?;
+                let peer = n(3)?;
+                let client_id = if fl.contains('l') { format!("cl{client}-{}", "x".repeat(70)) } else { format!("cl{client}") };
+                let known = !fl.contains('u');
+                RequestType::SetMetricDetail(SetMetricDetail {
+                    client_id,
+                    detail: if fl.contains('n') { None } else if fl.contains('v') { Some(77) } else { Some(0) },
+                    ttl_seconds: if fl.contains('t') { Some(100_000) } else { Some(120) },
+                    clear: if fl.contains('c') { Some(true) } else { None },
+                    peer_pid: if known { Some(1000 + peer as i32) } else { None },
+                    // peer 0 presents a real ULID, the others the `0x..` form the worker also accepts
+                    peer_session_ulid: if !known {
+                        None
+                    } else if peer == 0 {
+                        Some("01ARZ3NDEKTSV4RRFFQ69G5FAV".into())
+                    } else {
+                        Some(format!("0x{:x}", 0xabc000 + peer))
+                    },
+                    ..Default::default()
+                })
+            }
             "qcluster" => RequestType::QueryClusterById(format!("c{}", n(1)?)),
             other => return Err(format!("unknown op {other}")),
         }))
@@ -1035,7 +1062,9 @@ struct Shadow {
 }
 
 fn gen_case(rng: &mut Rng, thorough: bool) -> Vec<String> {
-    let mut ops = vec!["new".to_string()];
+    // one case in twelve runs on a worker with max_connections = 1 (listener capacity gate at 9 listeners)
+    let small = rng.chance(1, 12);
+    let mut ops = vec![if small { "new small".to_string() } else { "new".to_string() }];
     let mut sh = Shadow::default();
     let len = if thorough { rng.range(8, 60) } else { rng.range(6, 36) };
     let types = ['h', 'h', 't', 't', 's', 'u'];
@@ -1096,7 +1125,11 @@ fn gen_case(rng: &mut Rng, thorough: bool) -> Vec<String> {
                     // with traffic the freed slab token may go to a client session (not modelled)
                     continue;
                 }
-                ops.push(format!("deact {tys} {s}"));
+                if rng.chance(1, 6) {
+                    ops.push(format!("deact {tys} {s} scm"));
+                } else {
+                    ops.push(format!("deact {tys} {s}"));
+                }
                 if !bad_type {
                     if let Some(l) = sh.listeners.get_mut(&(t, s)) {
                         l.0 = false;
@@ -1244,11 +1277,11 @@ fn gen_case(rng: &mut Rng, thorough: bool) -> Vec<String> {
                 continue;
             }
             match rng.below(4) {
-                0 | 1 => ops.push(format!("addcert {s} {}", (clean || rng.chance(5, 6)) as u8)),
-                2 => ops.push(format!("rmcert {s} {}", (clean || rng.chance(5, 6)) as u8)),
+                0 | 1 => ops.push(format!("addcert {s} {} {}", rng.below(2), (clean || rng.chance(5, 6)) as u8)),
+                2 => ops.push(format!("rmcert {s} {} {}", rng.below(2), (clean || rng.chance(5, 6)) as u8)),
                 _ => {
                     if !clean {
-                        ops.push(format!("replcert {s} {} {}", rng.chance(5, 6) as u8, rng.chance(5, 6) as u8))
+                        ops.push(format!("replcert {s} {} {} {} {}", rng.below(2), rng.chance(5, 6) as u8, rng.below(2), rng.chance(5, 6) as u8))
                     }
                 }
             }
@@ -1262,12 +1295,30 @@ fn gen_case(rng: &mut Rng, thorough: bool) -> Vec<String> {
             // worker-level verbs and queries
             let k = *rng.pick(&[
                 "Status", "Logging", "ConfigureMetrics", "QueryMetrics", "QueryClustersHashes", "QueryClustersByDomain",
-                "SetMaxConnectionsPerIp", "QueryMaxConnectionsPerIp", "SetMetricDetail",
+                "SetMaxConnectionsPerIp", "QueryMaxConnectionsPerIp",
             ]);
-            let ok = clean || !(k == "ConfigureMetrics" || k == "SetMetricDetail") || rng.chance(3, 4);
-            match rng.below(5) {
+            let ok = clean || k != "ConfigureMetrics" || rng.chance(3, 4);
+            match rng.below(7) {
                 0 => ops.push(format!("qcluster {}", rng.below(NCLUSTER))),
-                1 => ops.push(format!("qcerts {} 0", rng.below(2))),
+                1 => ops.push(format!("qcerts {} {}", rng.below(3), rng.below(3))),
+                2 | 3 => {
+                    // metric-detail leases: 3 clients, 2 peers, apply / renew / clear, and the refused variants
+                    let mut fl = String::new();
+                    if rng.chance(1, 3) {
+                        fl.push('c');
+                    }
+                    if !clean {
+                        for (ch, den) in [('l', 12), ('n', 12), ('v', 14), ('t', 12), ('u', 5)] {
+                            if rng.chance(1, den) {
+                                fl.push(ch);
+                            }
+                        }
+                    }
+                    if fl.is_empty() {
+                        fl.push('-');
+                    }
+                    ops.push(format!("setdetail {} {fl} {}", rng.below(3), rng.below(2)));
+                }
                 _ => ops.push(format!("plain {k} {}", ok as u8)),
             }
         } else if r < 97 {
@@ -1282,7 +1333,7 @@ fn gen_case(rng: &mut Rng, thorough: bool) -> Vec<String> {
             ]);
             ops.push(format!("plain {k} 1"));
         } else if r < 98 {
-            if !clean && !traffic && rng.chance(1, 8) {
+            if !clean && !traffic && rng.chance(1, 4) {
                 ops.push("plain ReturnListenSockets 1".into());
                 for l in sh.listeners.values_mut() {
                     l.0 = false;
@@ -1334,11 +1385,12 @@ fn run_case_inner(ops: &[String]) -> ImplRun {
             continue;
         }
         if ws[0] == "new" {
-            witness = ws.get(1) == Some(&"w");
+            witness = ws.contains(&"w");
+            let small = ws.contains(&"small");
             if let Some(mut c) = ctx.take() {
                 c.w.stop();
             }
-            match Ctx::new() {
+            match Ctx::new(small) {
                 Ok(c) => ctx = Some(c),
                 Err(e) => {
                     run.oracle.push(("rig-setup".into(), e));
@@ -1562,6 +1614,15 @@ fn run_case_inner(ops: &[String]) -> ImplRun {
         }
         let mut out = if statuses.is_empty() { "-".to_string() } else { statuses.join(",") };
         out.push_str(&format!(" acc={}", accepted as u8));
+        if ws[0] == "qcerts" && ws[1] == "1" {
+            // the worker answers a fingerprint query from its view: found iff the main state has it
+            let id: u64 = ws[2].parse().unwrap_or(9);
+            let fp = if id < 2 { fingerprint_hex(id) } else { "00ff00ff".to_string() };
+            let ours = !c.master.get_certificates(QueryCertificatesFilters { domain: None, fingerprint: Some(fp) }).is_empty();
+            if final_ok.is_some() && final_ok != Some(ours) {
+                run.oracle.push(("view-diverges".into(), format!("certificate {id} by fingerprint: worker found={final_ok:?}, main state has it={ours}")));
+            }
+        }
         if ws[0] == "qcluster" {
             let ci = responses
                 .iter()
@@ -1685,6 +1746,29 @@ impl Area for WorkerArea {
             // replay f94bbe042c58 (harness artifact: two UDP slots got the same kernel-chosen port): the UDP
             // frontend of slot 1 must be reported on slot 1 while slot 2 owns another reserved address
             v(&["new w", "addl4 u 1 2", "rml u 2", "addcluster 2 1 1 0", "addbackend 2 1 1", "qcluster 2"]),
+            // SetMetricDetail: apply, renew by the owner, renewal and clear by another peer refused, clear of an
+            // unknown lease is a no-op OK, unknown binding at apply time lets anyone clear, the refused inputs
+            v(&["new w", "setdetail 0 - 0", "setdetail 0 - 0", "setdetail 0 - 1", "setdetail 0 c 1", "setdetail 0 cu 0", "setdetail 0 c 0",
+                "setdetail 0 c 0", "setdetail 1 u 0", "setdetail 1 c 1", "setdetail 2 n 0", "setdetail 2 v 0", "setdetail 2 t 0",
+                "setdetail 2 l 0", "setdetail 2 cl 0", "setdetail 2 - 1", "setdetail 2 u 0", "plain Status 1"]),
+            // the lease table holds LEASE_TABLE_CAP entries: the next new client is refused, a renewal is not
+            v(&["new w", "setdetail 10 - 0", "setdetail 11 - 0", "setdetail 12 - 0", "setdetail 13 - 0", "setdetail 14 - 0", "setdetail 15 - 0", "setdetail 16 - 0", "setdetail 17 - 0", "setdetail 18 - 0", "setdetail 19 - 0", "setdetail 20 - 0", "setdetail 21 - 0", "setdetail 22 - 0", "setdetail 23 - 0", "setdetail 24 - 0", "setdetail 25 - 0", "setdetail 26 - 0", "setdetail 27 - 0", "setdetail 28 - 0", "setdetail 29 - 0", "setdetail 30 - 0", "setdetail 31 - 0", "setdetail 32 - 0", "setdetail 33 - 0", "setdetail 34 - 0", "setdetail 35 - 0", "setdetail 36 - 0", "setdetail 37 - 0", "setdetail 38 - 0", "setdetail 39 - 0", "setdetail 40 - 0", "setdetail 41 - 0", "setdetail 42 - 0", "setdetail 43 - 0", "setdetail 44 - 0", "setdetail 45 - 0", "setdetail 46 - 0", "setdetail 47 - 0", "setdetail 48 - 0", "setdetail 49 - 0", "setdetail 50 - 0", "setdetail 51 - 0", "setdetail 52 - 0", "setdetail 53 - 0", "setdetail 54 - 0", "setdetail 55 - 0", "setdetail 56 - 0", "setdetail 57 - 0", "setdetail 58 - 0", "setdetail 59 - 0", "setdetail 60 - 0", "setdetail 61 - 0", "setdetail 62 - 0", "setdetail 63 - 0", "setdetail 64 - 0", "setdetail 65 - 0", "setdetail 66 - 0", "setdetail 67 - 0", "setdetail 68 - 0", "setdetail 69 - 0", "setdetail 70 - 0", "setdetail 71 - 0", "setdetail 72 - 0", "setdetail 73 - 0", "setdetail 74 - 0", "setdetail 10 - 0", "setdetail 99 - 0", "setdetail 10 c 0", "setdetail 99 - 0"]),
+            // certificates: the fingerprint query is answered from the view, the others by the HTTPS proxy
+            v(&["new w", "addl s 0 1", "act s 0", "qcerts 1 0", "addcert 0 0 1", "qcerts 1 0", "qcerts 1 1", "qcerts 0 0", "qcerts 2 0",
+                "addcert 0 0 1", "replcert 0 0 1 1 1", "qcerts 1 0", "qcerts 1 1", "rmcert 0 1 1", "qcerts 1 1", "replcert 0 1 1 0 0", "replcert 3 0 1 1 1"]),
+            // listener capacity: with max_connections = 1 the tenth listener is refused ("session list is full"),
+            // a deactivated listener frees a slot
+            v(&["new w small", "addl h 0 1", "addl h 1 1", "addl h 2 1", "addl h 3 1", "addl t 0 1", "addl t 1 1", "addl t 2 1", "addl t 3 1",
+                "addl u 0 1", "addl u 1 1", "addl s 0 1", "act t 3", "deact t 3", "addl u 1 1", "addl u 2 1"]),
+            // ReturnListenSockets hands back every active listener of the four proxies; they can be activated again
+            v(&["new w", "addl h 0 1", "act h 0", "addl s 1 1", "act s 1", "addl t 2 1", "act t 2", "addl u 3 1", "act u 3", "addl t 0 1",
+                "plain ReturnListenSockets 1", "deact h 0", "act h 0", "act t 2", "plain ReturnListenSockets 1", "plain Status 1"]),
+            // DeactivateListener with to_scm for the four proxies
+            v(&["new w", "addl h 0 1", "act h 0", "addl s 1 1", "act s 1", "addl t 2 1", "act t 2", "addl u 3 1", "act u 3",
+                "deact h 0 scm", "deact s 1 scm", "deact t 2 scm", "deact u 3 scm", "deact u 3 scm", "plain Status 1"]),
+            // UDP proxy: frontend add / remove on a live listener, cluster add / remove while a frontend routes to it
+            v(&["new w", "addl u 0 1", "act u 0", "addcluster 1 1 1 0", "addl4 u 0 1", "addcluster 1 1 1 0", "rmcluster 1", "rml4 u 0 1",
+                "rml4 u 0 1", "addl4 u 0 2", "rml u 0", "qcluster 1"]),
             // an EQUALS rule is deduplicated and removed like the others (F1 of C04 is repaired)
             v(&["new w", "addl h 0 1", "act h 0", "addcluster 0 1 1 0", "addbackend 0 0 0", "addf h 0 40 0 e", "addf h 0 40 0 e", "rmf h 0 40 0 e"]),
             // a clean configuration works end to end
